@@ -440,6 +440,74 @@ run_sweep(long v, void *arg)
                 MON("kasumi_f8_1_buffer", IMB_KASUMI_F8_1_BUFFER(c->m, &kk, 5, c->wb[0].src, c->wb[0].dst, 40));
                 MON("chacha20_poly1305_init", IMB_CHACHA20_POLY1305_INIT(c->m, keyset_raw(c->ks), (struct chacha20_poly1305_context_data *) (void *) c->wb[1].dst, c->wb[0].iv, c->wb[0].aad, 13));
                 n += 8;
+                /* the rest of the direct / helper surface (one call each is enough for a footprint) */
+                IMB_MGR *mm = c->m;
+                wb_t *b0 = &c->wb[0], *b1 = &c->wb[1], *b2 = &c->wb[2], *b3 = &c->wb[3];
+                static struct gcm_context_data gctx;
+                static struct chacha20_poly1305_context_data cctx;
+                static kasumi_key_sched_t k9;
+                static uint64_t dks[16];
+                DECLARE_ALIGNED(uint32_t ek[60], 16);
+                DECLARE_ALIGNED(uint32_t dk[60], 16);
+                const void *kp[4] = { keyset_raw(c->ks), keyset_raw(c->ks), keyset_raw(c->ks), keyset_raw(c->ks) };
+                const void *ivp[4] = { b0->iv, b1->iv, b2->iv, b3->iv }, *inp[4] = { b0->src, b1->src, b2->src, b3->src };
+                void *outp[4] = { b0->dst, b1->dst, b2->dst, b3->dst };
+                uint32_t *tgp[4] = { (uint32_t *) (void *) b0->tag, (uint32_t *) (void *) b1->tag, (uint32_t *) (void *) b2->tag, (uint32_t *) (void *) b3->tag };
+                uint32_t l4[4] = { 40, 17, 64, 33 };
+                uint64_t kiv[4] = { 1, 2, 3, 4 };
+                const snow3g_key_schedule_t *skp[4] = { &c->sk, &c->sk, &c->sk, &c->sk };
+                MON("snow3g_init_key_sched", IMB_SNOW3G_INIT_KEY_SCHED(mm, keyset_raw(c->ks), &c->sk));
+                MON("gcm128_init", IMB_AES128_GCM_INIT(mm, &c->gk, &gctx, b0->iv, b0->aad, 13));
+                MON("gcm128_enc_update", IMB_AES128_GCM_ENC_UPDATE(mm, &c->gk, &gctx, b0->dst, b0->src, 37));
+                MON("gcm128_enc_finalize", IMB_AES128_GCM_ENC_FINALIZE(mm, &c->gk, &gctx, b0->tag, 16));
+                MON("gcm128_dec", IMB_AES128_GCM_DEC(mm, &c->gk, &gctx, b1->dst, b0->dst, 37, b0->iv, b0->aad, 13, b1->tag, 16));
+                MON("gmac128_init", IMB_AES128_GMAC_INIT(mm, &c->gk, &gctx, b0->iv, 12));
+                MON("gmac128_update", IMB_AES128_GMAC_UPDATE(mm, &c->gk, &gctx, b0->src, 37));
+                MON("gmac128_finalize", IMB_AES128_GMAC_FINALIZE(mm, &c->gk, &gctx, b0->tag, 16));
+                MON("ghash", IMB_GHASH(mm, &c->gk, b0->src, 40, b0->tag, 16));
+                MON("chacha20_poly1305_init", IMB_CHACHA20_POLY1305_INIT(mm, keyset_raw(c->ks), &cctx, b0->iv, b0->aad, 13));
+                MON("chacha20_poly1305_enc_update", IMB_CHACHA20_POLY1305_ENC_UPDATE(mm, keyset_raw(c->ks), &cctx, b0->dst, b0->src, 70));
+                MON("chacha20_poly1305_finalize", IMB_CHACHA20_POLY1305_ENC_FINALIZE(mm, &cctx, b0->tag, 16));
+                MON("sha1", IMB_SHA1(mm, b0->src, 70, b0->tag));
+                MON("sha224", IMB_SHA224(mm, b0->src, 70, b0->tag));
+                MON("sha384", IMB_SHA384(mm, b0->src, 70, b0->tag));
+                MON("sha512", IMB_SHA512(mm, b0->src, 70, b0->tag));
+                MON("sha1_one_block", IMB_SHA1_ONE_BLOCK(mm, b0->src, b0->tag));
+                MON("sha256_one_block", IMB_SHA256_ONE_BLOCK(mm, b0->src, b0->tag));
+                MON("sha512_one_block", IMB_SHA512_ONE_BLOCK(mm, b0->src, b0->tag));
+                MON("md5_one_block", IMB_MD5_ONE_BLOCK(mm, b0->src, b0->tag));
+                MON("aes_keyexp_128", IMB_AES_KEYEXP_128(mm, keyset_raw(c->ks), ek, dk));
+                MON("aes128_cfb_one", IMB_AES128_CFB_ONE(mm, b0->dst, b0->src, b0->iv, ek, 11));
+                MON("des_keysched", IMB_DES_KEYSCHED(mm, dks, keyset_raw(c->ks)));
+                MON("des_cfb_one", des_cfb_one(b0->dst, b0->src, (const uint64_t *) (const void *) b0->iv, dks, 5));
+                MON("zuc_eea3_4_buffer", IMB_ZUC_EEA3_4_BUFFER(mm, kp, ivp, inp, outp, l4));
+                MON("zuc_eea3_n_buffer", IMB_ZUC_EEA3_N_BUFFER(mm, kp, ivp, inp, outp, l4, 3));
+                MON("zuc_eia3_1_buffer", IMB_ZUC_EIA3_1_BUFFER(mm, keyset_raw(c->ks), b0->iv, b0->src, 333, tgp[0]));
+                MON("zuc_eia3_n_buffer", IMB_ZUC_EIA3_N_BUFFER(mm, kp, ivp, inp, l4, tgp, 4));
+                MON("snow3g_f8_2_buffer", IMB_SNOW3G_F8_2_BUFFER(mm, &c->sk, b0->iv, b1->iv, b0->src, b0->dst, 40, b1->src, b1->dst, 17));
+                MON("snow3g_f8_n_buffer", IMB_SNOW3G_F8_N_BUFFER(mm, &c->sk, ivp, inp, outp, l4, 4));
+                MON("snow3g_f8_n_buffer_multikey", IMB_SNOW3G_F8_N_BUFFER_MULTIKEY(mm, skp, ivp, inp, outp, l4, 3));
+                MON("snow3g_f8_1_buffer_bit", IMB_SNOW3G_F8_1_BUFFER_BIT(mm, &c->sk, b0->iv, b0->src, b0->dst, 301, 3));
+                MON("snow3g_f9_1_buffer", IMB_SNOW3G_F9_1_BUFFER(mm, &c->sk, b0->iv, b0->src, 301, b0->tag));
+                MON("kasumi_f8_2_buffer", IMB_KASUMI_F8_2_BUFFER(mm, &kk, kiv[0], kiv[1], b0->src, b0->dst, 40, b1->src, b1->dst, 17));
+                MON("kasumi_f8_n_buffer", IMB_KASUMI_F8_N_BUFFER(mm, &kk, kiv, inp, outp, l4, 4));
+                MON("kasumi_f8_1_buffer_bit", IMB_KASUMI_F8_1_BUFFER_BIT(mm, &kk, kiv[0], b0->src, b0->dst, 301, 3));
+                MON("kasumi_init_f9_key_sched", IMB_KASUMI_INIT_F9_KEY_SCHED(mm, keyset_raw(c->ks), &k9));
+                MON("kasumi_f9_1_buffer", IMB_KASUMI_F9_1_BUFFER(mm, &k9, b0->src, 40, b0->tag));
+                MON("kasumi_f9_1_buffer_user", IMB_KASUMI_F9_1_BUFFER_USER(mm, &k9, kiv[0], b0->src, 301, b0->tag, 1));
+                MON("hec_32", id = IMB_HEC_32(mm, b0->src));
+                MON("hec_64", kiv[0] = IMB_HEC_64(mm, b0->src));
+                MON("crc16_x25", id = IMB_CRC16_X25(mm, b0->src, 40));
+                MON("crc24_lte_a", id = IMB_CRC24_LTE_A(mm, b0->src, 40));
+                MON("hmac_ipad_opad", imb_hmac_ipad_opad(mm, IMB_AUTH_HMAC_SHA_256, keyset_raw(c->ks), 32, b0->dst, b1->dst));
+                {
+                        void *dst[2] = { b0->dst, b1->dst }, *tg[2] = { b0->tag, b1->tag };
+                        const void *src[2] = { b0->src, b1->src }, *ivs[2] = { b0->iv, b1->iv }, *aads[2] = { b0->aad, b1->aad };
+                        uint64_t lens[2] = { 40, 17 };
+                        MON("quic_chacha20_poly1305", imb_quic_chacha20_poly1305(mm, keyset_raw(c->ks), IMB_DIR_ENCRYPT, dst, src, lens, ivs, aads, 8, tg, 2));
+                        MON("quic_hp_aes_ecb", imb_quic_hp_aes_ecb(mm, ek, dst, src, 2, IMB_KEY_128_BYTES));
+                }
+                n += 50;
         }
         /* re-initialisation of an existing manager */
         MON("init", VARIANTS[v].init(c->m));
